@@ -217,7 +217,7 @@ class CFG:
             a = n.ast
             if a is None:
                 continue
-            if n.kind == "stmt" and type(a) is ast.Assign and len(a.targets) == 1 and isinstance(a.targets[0], ast.Name):
+            if n.kind == "stmt" and type(a) in (ast.Assign, InlineReturn) and len(a.targets) == 1 and isinstance(a.targets[0], ast.Name):
                 stores.setdefault(a.targets[0].id, {})[n.id] = abstract(a.value)
                 roots = [a.value]
             elif n.kind == "stmt" and type(a) is ast.AnnAssign and isinstance(a.target, ast.Name) and a.value is not None:
@@ -280,6 +280,7 @@ class CFG:
             if name in bad or not defs or all(v == TOP for v in defs.values()):
                 continue
             tch = touch.get(name, set())
+            test_ids = {t.id: t.exprs[0] for t in tests}
             for _round in range(4):
                 IN: dict[int, set] = {self.entry.id: {TOP if name in params else UNSET}}
                 work = deque([self.entry.id])
@@ -291,6 +292,10 @@ class CFG:
                             out = {defs[u]}
                         elif u in tch:
                             out = {NN if v[0] == "m" else v for v in cur}
+                        elif u in test_ids and label in ("T", "F"):
+                            # behind an outcome of a test of the flag only the values that can give that outcome remain
+                            want_ = label == "T"
+                            out = {v for v in cur if decide(v, test_ids[u]) in (None, want_)}
                         else:
                             out = cur
                         before = IN.setdefault(dst, set())
@@ -312,6 +317,8 @@ class CFG:
                     # thread the incoming edges that decide the test
                     for (u, label, exc) in list(t.pred):
                         ev = {defs[u]} if (u in defs and label != "x") else ({NN if v[0] == "m" else v for v in IN.get(u, set())} if u in tch else IN.get(u, set()))
+                        if u in test_ids and label in ("T", "F") and u not in defs:
+                            ev = {v for v in ev if decide(v, test_ids[u]) in (None, label == "T")}
                         eo = {decide(v, t.exprs[0]) for v in ev}
                         if len(eo) != 1 or None in eo or not ev:
                             continue
